@@ -77,6 +77,23 @@ def build_overlay(work):
     return path
 
 
+MODFILE = None
+
+
+def alt_modfile(work):
+    """VERIF_REPO != /repo (development only: evaluating changes on a scratch copy without
+    touching /repo): an alternative go.mod for the harness module whose replace directive
+    points at that copy (go build -modfile)."""
+    global MODFILE
+    if REPO == '/repo':
+        return None
+    src = open(os.path.join(ROOT, 'harness', 'go.mod')).read().replace('=> /repo', '=> ' + REPO)
+    MODFILE = os.path.join(work, 'alt.mod')
+    open(MODFILE, 'w').write(src)
+    shutil.copy(os.path.join(ROOT, 'harness', 'go.sum'), os.path.join(work, 'alt.sum'))
+    return MODFILE
+
+
 def export(work, overlay, debug=''):
     out = os.path.join(work, 'ssa.json')
     exe = os.path.join(ROOT, 'bin', 'ssaexport')
@@ -89,6 +106,8 @@ def export(work, overlay, debug=''):
     cmd = [exe, '-dir', os.path.join(ROOT, 'harness'), '-overlay', overlay, '-out', out, '-allow', ALLOW, '-inits', INITS]
     if debug:
         cmd += ['-debug', debug]
+    if MODFILE:
+        cmd += ['-modfile', MODFILE]
     r = subprocess.run(cmd, env=GOENV, capture_output=True, text=True)
     if r.returncode != 0:
         log('ssaexport failed:\n' + r.stdout + r.stderr)
@@ -127,7 +146,7 @@ def run_native(pkgdir, cases, work, tag):
     with open(path, 'w') as f:
         json.dump(cases, f)
     env = dict(GOENV, VP_REPLAY=path)
-    cmd = ['go', 'test', '-count=1', '-vet=off', '-overlay', OVERLAY, '-v', '-run', '^TestReplay$', '-timeout', '300s', './' + pkgdir + '/']
+    cmd = ['go', 'test', '-count=1', '-vet=off', '-overlay', OVERLAY] + (['-modfile', MODFILE] if MODFILE else []) + ['-v', '-run', '^TestReplay$', '-timeout', '300s', './' + pkgdir + '/']
     r = subprocess.run(cmd, cwd=os.path.join(ROOT, 'harness'), env=env, capture_output=True, text=True)
     out = r.stdout + r.stderr
     res = [None] * len(cases)
@@ -394,6 +413,7 @@ def main():
 def run(pid, seed, t0):
     global PROG, OVERLAY, BASE_EX
     OVERLAY = build_overlay(WORK)
+    alt_modfile(WORK)
     if ARGS.replay:
         return do_replay(pid, ARGS.replay)
     if not ARGS.only:
